@@ -189,7 +189,7 @@ def handle : List String → String
     "keys=" ++ ",".intercalate ks ++ " st=" ++ (if ks.eraseDups.length == ks.length then "ok" else "notypecheck") ++ "\t" ++ "keys=" ++ names ++ " st=ok"
   | ["bfile", kind] =>
     let k : GenEmit.SrcKind := if kind == "plain" || kind == "second-file" then .plain else if kind == "test-file" then .testFile else .constrained
-    (if GenEmit.packageStillBuilds k then "ok" else "nobuild") ++ "\tok"
+    (if GenEmit.packageStillBuilds Gen.analyzerSkipTestFiles k then "ok" else "nobuild") ++ "\tok"
   | ["gen"] => "ok ok"
   | ["compile", _, _] => "ok ok"
   | ["sample", _, _] => "same same"
